@@ -136,7 +136,8 @@ def snap_payload(m):
         return {"harmonic_freqs": list(m.harmonic_freqs.values), "harmonic_volumes": list(m.harmonic_volumes.values),
                 "harmonic_widths": list(m.harmonic_widths.values), "harmonic_types": [_v(x) for x in m.harmonic_types.values]}
     if t in ("Analog generator", "Generator"):
-        return {"drawn_waveform": list(m.drawn_waveform.samples)}
+        dw = m.drawn_waveform
+        return {"drawn_waveform": list(dw.samples), "drawn_waveform_format": _v(dw.format), "drawn_waveform_freq": dw.freq}
     if t == "FMX":
         return {"custom_waveform": list(m.custom_waveform.values)}
     if t == "Vorbis player":
